@@ -120,11 +120,12 @@ func writeWorkerConfig(dir string) error {
 func scannerID(s indexer.VersionedScanner) string { return s.Kind() + "/" + s.Name() }
 
 // The calls after the scanners, by offset from len(scanners).
-var pseudoCalls = []string{"concurrent/all-scanners", "concurrent/LayerScanner.Scan"}
+var pseudoCalls = []string{"concurrent/all-scanners", "concurrent/LayerScanner.Scan", "layer/Reader+Files"}
 
 const (
-	pseudoFanOut = 0
-	pseudoReal   = 1
+	pseudoFanOut   = 0
+	pseudoReal     = 1
+	pseudoLayerAPI = 2
 
 	// concurrentProcs is GOMAXPROCS during the concurrent calls (the worker
 	// runs everything else on one).
@@ -484,6 +485,8 @@ func (w *workerState) layer(blob []byte, idx []int, report bool) {
 				o = w.fanOut(blob, &desc)
 			case pseudoReal:
 				o = w.realScan(blob, &desc)
+			case pseudoLayerAPI:
+				o = measured(layerAPI(&l, blob))
 			default:
 				o = measured(scanWith(w.scanners[i], &l))
 				w.seq[i] = fmt.Sprintf("%s/%d", o.status, o.items)
@@ -570,6 +573,39 @@ func (w *workerState) fanOut(blob []byte, desc *claircore.LayerDescription) call
 		}
 		return done, nil
 	})
+}
+
+// layerAPI exercises the rest of layer.go on an initialised layer: Reader must
+// hand the blob back, Files (deprecated, still exported) resolves the paths the
+// scanners know through links and reads them whole, a second Init is refused.
+func layerAPI(l *claircore.Layer, blob []byte) func(context.Context) (int, error) {
+	return func(ctx context.Context) (int, error) {
+		rd, err := l.Reader()
+		if err != nil {
+			return 0, err
+		}
+		h := sha256.New()
+		n, err := io.Copy(h, io.LimitReader(rd, int64(len(blob))+1))
+		rd.Close()
+		if err != nil {
+			return 0, err
+		}
+		if want := sha256.Sum256(blob); n != int64(len(blob)) || !bytes.Equal(h.Sum(nil), want[:]) {
+			return 0, fmt.Errorf("Layer.Reader returned %d bytes that are not the blob (%d bytes)", n, len(blob))
+		}
+		if err := l.Init(ctx, &claircore.LayerDescription{Digest: l.Hash.String(), MediaType: layerMediaType}, bytes.NewReader(blob)); err == nil {
+			return 0, errors.New("a second Layer.Init was accepted")
+		}
+		paths := make([]string, 0, 2*len(scannerPaths))
+		for _, p := range scannerPaths {
+			paths = append(paths, p, "/./"+p)
+		}
+		m, err := l.Files(paths...)
+		if errors.Is(err, claircore.ErrNotFound) {
+			return 0, nil
+		}
+		return len(m), err
+	}
 }
 
 // realScan is indexer.LayerScanner.Scan on the layer, as the indexer calls it
